@@ -22,7 +22,7 @@ RULE = ('grid: responses at a client (method GET/HEAD/POST x request trailers x 
         'is a no-content one; distinct by concrete trace')
 ASSUMPTIONS = ['"rejected" = connection error PROTOCOL_ERROR or RST_STREAM on that stream at any step of the message']
 TIERS = {'quick': {'cases': 3000, 'size': 48},
-         'thorough': {'cases': 300000, 'size': 48}}
+         'thorough': {'cases': 1200000, 'size': 48}}
 
 PATTERNS = [(), (0,), (5,), (5, 0), (2, 3), (0, 5)]
 CLS = ['absent', '0', 'eq', 'minus1', 'plus1', '100']
